@@ -186,6 +186,23 @@ pub fn execute(sc: &Scenario, env: &Env) -> (Outcome, RunStats) {
                     }
                     _ => unreachable!(),
                 };
+                // now and then the patch text is padded with blank lines / spaces (a pasted
+                // envelope): whatever the tool makes of it, an edit needs its covering checkpoint
+                let mut args = args;
+                if tool == "apply_patch" {
+                    let pad = match k % 9 {
+                        2 => "\n",
+                        5 => "  ",
+                        7 => "\n\n ",
+                        _ => "",
+                    };
+                    if !pad.is_empty() {
+                        if let Some(p) = args.get("patch").and_then(|p| p.as_str()).map(|p| p.to_string()) {
+                            args["patch"] = json!(format!("{pad}{p}"));
+                            stats.bump("padded_patch_envelopes", 1);
+                        }
+                    }
+                }
                 let ev = te.run_tool(tool, args);
                 let pos_ckpt = ev.iter().position(|e| matches!(e.kind, EventKind::CheckpointCreated { .. }));
                 let pos_start = ev.iter().position(|e| matches!(e.kind, EventKind::ToolStarted { .. }));
@@ -407,7 +424,7 @@ impl Check for C14 {
         out.into_iter().map(|s| serde_json::to_value(s).unwrap()).collect()
     }
     fn rule(&self) -> String {
-        "one evaluation = one history of 3-30 steps over six paths (existing, missing, nested): manual checkpoints over 1-4 paths spelled relative or absolute, write tool (overwrite/append, atomic or in place), apply_patch tool (add, update, update+move, delete, two-file), direct edits, deletes, a directory put in a path's place, rewinds to any earlier checkpoint (manual or automatic, repeatedly), and rewinds with an injected failure (stored blob removed, covered path occupied by a directory); process cwd equal to or different from the root (where the same relative names hold other bytes); after each rewind every covered path is compared with its checkpoint-time bytes/absence, after each editing tool the automatic checkpoint's position and coverage are judged, after a failed rewind the tree must be unchanged; distinct = hash of (step kinds, outcomes) and cwd mode; non-trivial = at least one successful rewind judged".into()
+        "one evaluation = one history of 3-30 steps over six paths (existing, missing, nested): manual checkpoints over 1-4 paths spelled relative or absolute, write tool (overwrite/append, atomic or in place), apply_patch tool (add, update, update+move, delete, two-file; now and then with a blank-line / space padded envelope), direct edits, deletes, a directory put in a path's place, rewinds to any earlier checkpoint (manual or automatic, repeatedly), and rewinds with an injected failure (stored blob removed, covered path occupied by a directory); process cwd equal to or different from the root (where the same relative names hold other bytes); after each rewind every covered path is compared with its checkpoint-time bytes/absence, after each editing tool the automatic checkpoint's position and coverage are judged, after a failed rewind the tree must be unchanged; distinct = hash of (step kinds, outcomes) and cwd mode; non-trivial = at least one successful rewind judged".into()
     }
     fn assumptions(&self) -> Vec<String> {
         vec![
